@@ -39,7 +39,7 @@ ENTRY = dict(
     lean_modules=["Bpmn.Props.C18", "Bpmn.Props.C18Current"],
     families=["c18"],
     exhaustive=False,
-    multi_seed=False,
+    multi_seed=True,
     rule=("sets of 1..3 executable processes (start->end, start->task->end, xor split on a task result, parallel fork/join, "
           "throw shapes, catch shapes) x 0..2 waiting processes x 0..2 message flows (throw -> start event of a waiting process, "
           "throw -> catch event of another member, both, two throws to one start event, a throw without a flow); wait modes: "
